@@ -12,7 +12,7 @@ def lowest_free(sap, lo, hi):
 
 
 from pyvc_rt import same_entries, call_arg, call_ret, ideal, entries_none_from, was_called, urandom_draws   # noqa
-from pyvc_rt import call_raised, call_errno   # noqa
+from pyvc_rt import call_raised, call_errno, call_kwarg   # noqa
 
 
 def unchanged_except(new, old, addr):
